@@ -359,15 +359,16 @@ Definition validated := (Z * Z * Z * Z * Z * Z * Z * option tzv)%type.
 Definition date_ok (y m d : Z) : bool := (1 <=? y) && (y <=? 9999) && valid_dateb y m d.
 
 (* pendulum.parse(f"{year}-{doy:>03d}") — the ISO ordinal date.  Python parser: day of year within the year;
-   Rust parser (rust/src/parsing.rs ordinal_to_ymd): `ord < MONTHS_OFFSETS[leap][i]` makes the last day of every month
-   come out as day 0 of the following month, which is rejected. *)
+   Rust parser (rust/src/parsing.rs ordinal_to_ymd): the loop over MONTHS_OFFSETS with `ord <= MONTHS_OFFSETS[leap][i]`
+   (finding rs-ordinal-month-end repaired; with the former `<` the last day of every month came out as day 0 of the
+   following month, which was rejected). *)
 Definition doy_to_md_py (y doy : Z) : result (Z * Z) :=
   if (1 <=? doy) && (doy <=? days_in_year y) then Ok (md_of_yday y doy) else Raise E_ParserError.
 
 Fixpoint rs_ord_loop (fuel : nat) (offs : list Z) (i ord : Z) : option (Z * Z) :=
   match fuel with
   | O => None
-  | S f => if ord <? tidx offs i then Some (i - 1, ord - tidx offs (i - 1)) else rs_ord_loop f offs (i + 1) ord
+  | S f => if ord <=? tidx offs i then Some (i - 1, ord - tidx offs (i - 1)) else rs_ord_loop f offs (i + 1) ord
   end.
 Definition doy_to_md_rs (y doy : Z) : result (Z * Z) :=
   if (1 <=? doy) && (doy <=? days_in_year y) then
